@@ -487,6 +487,19 @@ fn compare(tree_out: &Outcome, flat_out: &Outcome, msgs: &[(String, usize, usize
 }
 
 pub fn replay(v: &Value) -> Option<Result<(), String>> {
+    if v.get("kind")?.as_str()? == "spanning" {
+        let tag = v.get("tag")?.as_str()?;
+        let (_, files, pasted, _) = spanning_cases().into_iter().find(|c| c.0 == tag)?;
+        let root = scratch_dir().join("c11-replay-span");
+        let _ = std::fs::remove_dir_all(&root);
+        std::fs::create_dir_all(&root).ok()?;
+        for (n, t) in &files {
+            std::fs::write(root.join(n), t).ok()?;
+        }
+        let r = compare(&build_file(root.join("main.asm"), BTreeSet::new()), &build(&pasted), &[]).map_err(|(k, why)| format!("{}: {}", k, why));
+        let _ = std::fs::remove_dir_all(&root);
+        return Some(r);
+    }
     if v.get("kind")?.as_str()? != "include_tree" {
         return None;
     }
@@ -643,6 +656,46 @@ fn many_includes_leg(ev: &mut Ev) {
     }
 }
 
+/// Constructs that are opened in one file and closed in another: pasting makes them whole.
+/// (name, files [(name, text)] with main.asm first, pasted text, signature tail)
+pub fn spanning_cases() -> Vec<(&'static str, Vec<(&'static str, String)>, String, &'static str)> {
+    let mut v = vec![];
+    let mut add = |tag: &'static str, main: &str, inc: &str, sig: &'static str| {
+        let pasted = main.replace(".include \"part.inc\"\n", inc);
+        v.push((tag, vec![("main.asm", main.to_string()), ("part.inc", inc.to_string())], pasted, sig));
+    };
+    // a taken branch spans the boundary: nothing is being skipped when the file ends
+    add("taken-if-opened-in-the-included-file", ".dw 1\n.include \"part.inc\"\n.dw 3\n.endif\n.dw 4\n", ".if 1\n.dw 2\n", "conditional-crosses-end-of-file");
+    add("taken-if-closed-in-the-included-file", ".if 1\n.dw 1\n.include \"part.inc\"\n.dw 4\n", ".dw 2\n.endif\n.dw 3\n", "conditional-crosses-end-of-file");
+    // an untaken branch spans the boundary: skipping has to go on in the other file
+    add("untaken-if-opened-in-the-included-file", ".dw 1\n.include \"part.inc\"\n.dw 3\n.endif\n.dw 4\n", ".if 0\n.dw 2\n", "conditional-skip-crosses-end-of-file");
+    add("else-in-the-included-file", ".if 1\n.dw 1\n.include \"part.inc\"\n.dw 3\n.endif\n.dw 4\n", ".dw 2\n.else\n.dw 9\n", "conditional-skip-crosses-end-of-file");
+    // (an .include line that itself stands in an unselected branch is never performed — C08 — so
+    //  "closed in a file included from the skipped part" is not a case of this property)
+    add("macro-definition-closed-in-the-including-file", ".dw 1\n.include \"part.inc\"\n.dw 3\n.endm\nspan_m\n.dw 4\n", ".macro span_m\n.dw 2\n", "macro-definition-crosses-end-of-file");
+    v
+}
+
+fn spanning_leg(ev: &mut Ev) {
+    for (tag, files, pasted, sig) in spanning_cases() {
+        ev.eval();
+        ev.class("construct-spanning-a-file-boundary");
+        ev.nt(fp(&pasted));
+        let root = scratch_dir().join(format!("c11-span-{}", tag));
+        let _ = std::fs::remove_dir_all(&root);
+        let _ = std::fs::create_dir_all(&root);
+        for (n, t) in &files {
+            let _ = std::fs::write(root.join(n), t);
+        }
+        let tree_out = build_file(root.join("main.asm"), BTreeSet::new());
+        let flat_out = build(&pasted);
+        if let Err((k, why)) = compare(&tree_out, &flat_out, &[]) {
+            ev.violation(Violation { sig: format!("c11:spanning:{}", sig), what: format!("[{}] {} ({})", tag, why, k), replay: json!({"kind": "spanning", "tag": tag}) });
+        }
+        let _ = std::fs::remove_dir_all(&root);
+    }
+}
+
 pub fn run(ctx: &Ctx) -> Result<Ev, String> {
     let opts = ModelOpts { devices: model::model_devices() };
     let shards = 32usize;
@@ -650,6 +703,7 @@ pub fn run(ctx: &Ctx) -> Result<Ev, String> {
     let seed = ctx.seed;
     let mut total = par::run_shards("C11", shards, |s| par::prop_shard("C11", seed, s, per, &raw_tree(), |c, ev| test(c, ev, &opts, &format!("{}", s))));
     many_includes_leg(&mut total);
+    spanning_leg(&mut total);
     if total.has_violation() {
         return Ok(total);
     }
@@ -665,5 +719,5 @@ pub fn run(ctx: &Ctx) -> Result<Ev, String> {
 }
 
 pub fn rule() -> String {
-    "proptest: a flat program of up to ~30 chunks (markers, labels, .equ, macro definitions, uses of those from other chunks in both directions, .device in an included file, .define / .ifdef pairs, .message/.warning, .dseg excursions) split by a generated bracket structure into a tree of 1–8 files, depth ≤ 4; every file is placed in exactly one directory and reached by exactly one rule: path as written (absolute / relative to the working directory), directory of the including file (also sub/…), caller-supplied directory, directory named by an earlier .includepath (absolute or relative to the file carrying the directive; carried by the including file or by a previously included sibling); ~20 % of the files end with .exit followed by poison; one leg includes a file that exists nowhere. Oracle: build_file(tree) equals build_str(pasted text) in images, sizes, ram_filling and message texts in order, message line numbers are the lines in their own files, and the pasted text matches the reference model. Non-trivial = depth ≥ 2, or an .includepath relative to a nested file, or symbols crossing a boundary in both directions, or .exit present, or the missing-file leg; distinct = distinct file tree".into()
+    "proptest: a flat program of up to ~30 chunks (markers, labels, .equ, macro definitions, uses of those from other chunks in both directions, .device in an included file, .define / .ifdef pairs, .message/.warning, .dseg excursions) split by a generated bracket structure into a tree of 1–8 files, depth ≤ 4; every file is placed in exactly one directory and reached by exactly one rule: path as written (absolute / relative to the working directory), directory of the including file (also sub/…), caller-supplied directory, directory named by an earlier .includepath (absolute or relative to the file carrying the directive; carried by the including file or by a previously included sibling); ~20 % of the files end with .exit followed by poison; one leg includes a file that exists nowhere; a deterministic leg opens a conditional or a macro definition in one file and closes it in the other. Oracle: build_file(tree) equals build_str(pasted text) in images, sizes, ram_filling and message texts in order, message line numbers are the lines in their own files, and the pasted text matches the reference model. Non-trivial = depth ≥ 2, or an .includepath relative to a nested file, or symbols crossing a boundary in both directions, or .exit present, or the missing-file leg; distinct = distinct file tree".into()
 }
